@@ -115,6 +115,11 @@ def run(ctx):
                 "sender's ground truth. non-trivial iff the merge switches between connections at least twice.")
     ctx.assumptions = ["QUIC connection IDs are globally unique random values (RFC 9000 §5.1); connections have distinct "
                        "(client ip, client port, server ip) triples except in the same-cport pattern where server ips differ"]
+    import m1_mainloop
+    ctx.gen_tables.update(m1_mainloop.regen())      # reset statements of run() → lean/TLX/Gen/MainLoopConsts.lean
+    ctx.prove(["TLX.Props.C04"])
+    ctx.require_theorems([t for t in m1_mainloop.THEOREMS if t.startswith("TLX.Props.C04.")])
+    m1_mainloop.correspond(ctx)       # ties TLX.MainLoop to the real handle_packet / handle_quic_packet / run()
     explore(ctx)
     return ctx.finish(search=lambda c: explore(c, scale=2))
 
